@@ -696,18 +696,37 @@ def r203(ctx, rep, f, ev, cg, reach):
     # reference update
     W3 = "fastpasta/src/analyze/validators/its/status_word/util.rs"
     rp = "fastpasta::analyze::validators::its::status_word::util::TdhBuffer::replace"
+    # decided per content of the buffer (no current TDH / a current TDH `OLD`): what the three slots hold afterwards
+    TBUF = rp.rsplit("::", 1)[0]
+    BIT = "any(OLD.trigger_type_internal_trigger_no_data_continuation_reserved2[12])"
+    OPT = "core::option::Option"
+    final = {}
     ev.bitfields = True
+    ev.watch = lambda c: c.startswith("core::option::Option::<T>::replace")
     try:
-        out = ev.collect_ifs(rp, [Sym("self"), Sym("tdh")]) if rp in f.fns else []
+        for case, cur in (("empty", Agg(OPT, "None", {})), ("holds", Agg(OPT, "Some", {"0": Sym("OLD")}))):
+            slots = {"current_tdh": [], "previous_tdh": [], "previous_tdh_with_internal_set": []}
+            try:
+                slf = Agg(TBUF, "TdhBuffer", {"current_tdh": cur, "previous_tdh": Sym("PRV"), "previous_tdh_with_internal_set": Sym("REF")})
+                for o in (ev.collect_ifs(rp, [slf, Sym("tdh")], follow=lambda c: c.startswith(TBUF + "::")) if rp in f.fns else []):
+                    g = tuple(x for x in o.get("guard", ()) if x not in ("true", "not false"))
+                    if any(x in ("false", "not true") for x in g):
+                        continue
+                    if "assign" in o and (o.get("place") or "").startswith("self."):
+                        slots.setdefault(o["place"][5:], []).append((o["assign"][2], g))
+                    elif "call" in o and o["args"][0] == vkey(cur):
+                        slots["current_tdh"].append(("Option::Some(0=%s)" % o["args"][1], g))
+            except Unsupported as e:
+                slots = {"?": [(str(e), ())]}
+            final[case] = slots
     finally:
         ev.bitfields = False
-    old = "sym(call:core::option::Option::<T>::replace(sym(self.current_tdh),sym(tdh)))"
-    asg = [o for o in out if "assign" in o and o["assign"][1] == "sym(self.previous_tdh_with_internal_set)"]
-    gexp = "and[any(payload(%s,Some).trigger_type_internal_trigger_no_data_continuation_reserved2[12]);symc(isSome(%s))]" % (old, old)
-    ok = len(asg) == 1 and asg[0]["assign"][2] == old and tuple(asg[0]["guard"]) == (gexp,)
-    rep.check(ok, "R20.3", "R20.3|reference|TdhBuffer::replace", "reference := outgoing current TDH iff it had the internal-trigger bit", W3,
-              "TdhBuffer::replace does not set previous_tdh_with_internal_set to the outgoing TDH exactly when its internal_trigger bit is 1: %s"
-              % [(o["assign"], list(o["guard"])) for o in asg])
+        ev.watch = None
+    want = {"empty": {"current_tdh": [("Option::Some(0=sym(tdh))", ())], "previous_tdh": [("Option::None()", ())], "previous_tdh_with_internal_set": []},
+            "holds": {"current_tdh": [("Option::Some(0=sym(tdh))", ())], "previous_tdh": [("Option::Some(0=sym(OLD))", ())],
+                      "previous_tdh_with_internal_set": [("Option::Some(0=sym(OLD))", (BIT,))]}}
+    rep.check(final == want, "R20.3", "R20.3|reference|TdhBuffer::replace", "reference := outgoing current TDH iff it had the internal-trigger bit; current := new TDH; previous := outgoing", W3,
+              "TdhBuffer::replace does not set previous_tdh_with_internal_set to the outgoing TDH exactly when its internal_trigger bit is 1 (stores per case: %s, expected %s)" % (final, want))
     # writers of the reference field
     writers = set()
     for p in sorted(reach):
